@@ -242,7 +242,9 @@ def _run_one(prog: Program, report: Report, g) -> int:
         if len(targets) < g.min and not (g.min == 0):
             raise AnalysisError(f"{g.rule}: {g.fn}: target /{g.target}/ found {len(targets)} time(s), expected at least {g.min} (table needs maintenance)")
         if isinstance(g, Gate):
-            if g.max is None and g.min >= 1 and re.fullmatch(r"\^(False|True|None|break|continue)\$", g.target) and len(targets) > g.min:
+            from ..gates import returns_reshaped
+
+            if g.max is None and g.min >= 1 and re.fullmatch(r"\^(False|True|None|break|continue)\$", g.target) and len(targets) > g.min and returns_reshaped(v):
                 # constant answers are split and merged freely by refactorings: more of them than were
                 # reviewed cannot be attributed to the reviewed guard sets
                 raise AnalysisError(f"{g.rule}: {g.fn}: target /{g.target}/ found {len(targets)} times, expected at most {g.min} (a constant answer the reviewed code did not have: unrecognised)")
@@ -262,7 +264,8 @@ def _run_one(prog: Program, report: Report, g) -> int:
         elif isinstance(g, Val):
             from .rn import canon, kind_of
 
-            want_ast = ast.parse(g.expect, mode="eval").body
+            want_ast0 = ast.parse(g.expect, mode="eval").body
+            want_ast = want_ast0
             want = canon(want_ast)
             for t in targets:
                 n += 1
@@ -279,6 +282,8 @@ def _run_one(prog: Program, report: Report, g) -> int:
                     raise AnalysisError(f"{g.rule}: {g.fn}: target /{g.target}/ has no value expression")
                 cands = [e] + [v.res.expr(e, d) for d in (1, 2, 3)]
                 gots = [canon(c) for c in cands]
+                want_ast = _expand_reviewed_defs(v, want_ast0)  # a vanished local of the formula stands for its reviewed definition
+                want = canon(want_ast)
                 # hoisted sub-expressions: both sides with every single-assignment local replaced by its definition
                 full = canon(v.res.expr(e, 6)) == canon(v.res.expr(want_ast, 6))
                 if want in gots or full or _equal_modulo_rename(v, want_ast, cands, canon):
@@ -291,8 +296,8 @@ def _run_one(prog: Program, report: Report, g) -> int:
                     report.errors.append(msg)
                 elif _renamed_new(v, want_ast, e, canon):
                     report.ob(g.rule, g.fn, f"{g.why.split(';')[0]}: `{one_line(e)[:70]}` = {want} (modulo a renamed local)")
-                elif _new_in(v, e):
-                    raise AnalysisError(f"{g.rule}: {g.fn}: `{one_line(e)[:60]}` cannot be compared with the documented formula `{want[:60]}`: it mentions {_new_in(v, e)}, which the reviewed function did not contain; the formula's own names found 0 time(s) in that role (renamed or restructured)")
+                elif _new_in(v, v.res.expr(e, 6)):  # new names that are not just hoisted sub-expressions
+                    raise AnalysisError(f"{g.rule}: {g.fn}: `{one_line(e)[:60]}` cannot be compared with the documented formula `{want[:60]}`: it mentions {_new_in(v, v.res.expr(e, 6))}, which the reviewed function did not contain; the formula's own names found 0 time(s) in that role (renamed or restructured)")
                 elif _gone_names(v, want_ast):
                     raise AnalysisError(f"{g.rule}: {g.fn}: `{one_line(e)[:60]}` cannot be compared with the documented formula `{want[:60]}`: it mentions {_gone_names(v, want_ast)}, found 0 time(s) in the function now (renamed or restructured)")
                 else:
@@ -390,10 +395,37 @@ def _renamed_new(v: FnView, want_ast: ast.expr, e: ast.expr, canon) -> bool:
     return False
 
 
-def _gone_names(v: FnView, want_ast: ast.expr) -> list[str]:
-    from ..gates import fn_names
+def _expand_reviewed_defs(v: FnView, want_ast: ast.expr) -> ast.expr:
+    from ..gates import _reviewed
+    from ..norm import clone
 
-    return sorted({n.id for n in ast.walk(want_ast) if isinstance(n, ast.Name)} - fn_names(v))
+    rv = _reviewed(v)
+    if rv is None or not rv.get("defs"):
+        return want_ast
+    cur = want_ast
+    for _ in range(3):
+        gone = [g for g in _gone_names(v, cur) if g in rv["defs"]]
+        if not gone:
+            break
+
+        class T(ast.NodeTransformer):
+            def visit_Name(self, node: ast.Name) -> ast.AST:
+                if node.id in gone and isinstance(node.ctx, ast.Load):
+                    return ast.parse(rv["defs"][node.id], mode="eval").body
+                return node
+
+        cur = ast.fix_missing_locations(T().visit(clone(cur)))
+    return cur
+
+
+def _gone_names(v: FnView, want_ast: ast.expr) -> list[str]:
+    from ..gates import _reviewed, fn_names
+
+    gone = {n.id for n in ast.walk(want_ast) if isinstance(n, ast.Name)} - fn_names(v)
+    rv = _reviewed(v)
+    if rv is not None and "locals" in rv:
+        gone &= set(rv["locals"])  # only a local / parameter of the reviewed function can have been renamed
+    return sorted(gone)
 
 
 def _equal_modulo_rename(v: FnView, want_ast: ast.expr, cands: list, canon) -> bool:
